@@ -24,9 +24,10 @@ func enc(m proto.Message) []byte {
 
 // NetMsg is an in-flight message: wire bytes plus a decoded, immutable copy.
 type NetMsg struct {
-	Enc string
-	M   *pb.Message
-	Seq int
+	Enc     string
+	M       *pb.Message
+	Seq     int
+	Delayed bool // frozen by EvDelay: not delivered by the default scheduler before the script has ended
 }
 
 // AppState is the application's replicated state machine: a hash chain over the
@@ -79,6 +80,7 @@ type Node struct {
 	AppendQ, ApplyQ, LocalQ []*pb.Message
 	SnapObl                 []uint64 // peers to which a MsgSnap was released and not yet reported
 	Stopped                 bool
+	ApplyPaused             bool // async: the apply thread is not scheduled
 
 	shared   bool // referenced by more than one world: copy before writing
 	vsCache  *raft.VerifState
@@ -630,6 +632,7 @@ func (w *World) crashRestart(n *Node, rec *StepRec, flags int) {
 	rec.Crashed = true
 	n.Pending, n.Stage = nil, 0
 	n.AppendQ, n.ApplyQ, n.LocalQ, n.SnapObl = nil, nil, nil, nil
+	n.ApplyPaused = false
 	n.Inc++
 	if flags&CrashLoseUnsynced != 0 {
 		n.Disk.SetHardState(cloneHS(n.SyncedHS))
@@ -931,6 +934,15 @@ func (w *World) exec(ev Event, n *Node, rec *StepRec) {
 		}
 	case EvStop:
 		n.Stopped = true
+	case EvPauseApply:
+		n.ApplyPaused = ev.Arg == 1
+	case EvDelay:
+		w.Budget[BDelay]--
+		for k := range w.Net {
+			if w.Net[k].M.GetTo() == n.ID {
+				w.Net[k].Delayed = true
+			}
+		}
 	default:
 		panic(fmt.Sprintf("harness: unknown event %v", ev))
 	}
@@ -1003,7 +1015,7 @@ func (w *World) own(i int) *Node {
 	}
 	d := n.Disk.VerifClone()
 	nn := &Node{ID: n.ID, Inc: n.Inc, Cfg: n.Cfg, Disk: d, RN: n.RN.VerifClone(d), SyncedHS: n.SyncedHS, App: n.App,
-		Pending: n.Pending, Stage: n.Stage, Stopped: n.Stopped,
+		Pending: n.Pending, Stage: n.Stage, Stopped: n.Stopped, ApplyPaused: n.ApplyPaused,
 		AppendQ: append([]*pb.Message(nil), n.AppendQ...), ApplyQ: append([]*pb.Message(nil), n.ApplyQ...),
 		LocalQ: append([]*pb.Message(nil), n.LocalQ...), SnapObl: append([]uint64(nil), n.SnapObl...)}
 	nn.fp = n.fp
